@@ -7,7 +7,6 @@ import (
 	"os"
 	"os/exec"
 	"path/filepath"
-	"runtime"
 	"strings"
 	"time"
 
@@ -18,8 +17,10 @@ import (
 
 // C14: generated deterministic concurrent programs (pipelines, fan-in with arguments the parent
 // keeps changing, WaitGroup-like counting with shared cells, several producers and a closer,
-// select with output-irrelevant choice; random Gosched calls) are run by Scriggo under several
-// GOMAXPROCS settings; the printed output must equal that of the same source built by gc (one
+// select with output-irrelevant choice; random Gosched calls; closed.go: closed channels; opseq.go:
+// sequences of channel operations per goroutine; forms.go: statement forms around select and range)
+// are run by Scriggo under several GOMAXPROCS settings and under every context mode of exec.go (a
+// context that is not cancelled must not change the run); the printed output must equal that of the same source built by gc (one
 // `go run` batch per check) — the property's oracle — and the trace of the Lean source-level and
 // VM-level evaluators (Model/GoStmt.lean) under pseudo-random schedules, where modelled.
 func main() { hx.Main("C14", runC14) }
@@ -28,6 +29,7 @@ type c14Case struct {
 	Source string `json:"source"`
 	Want   string `json:"want"` // gc's output
 	Procs  int    `json:"procs"`
+	Mode   string `json:"mode,omitempty"` // context mode of the run (exec.go); empty: background
 }
 
 func (c c14Case) line() string {
@@ -122,19 +124,8 @@ func lastLines(s string, n int) string {
 	return strings.Join(ls, "\n")
 }
 
-// scriggoRun builds source and runs it once under procs; returns what it printed.
-func scriggoRun(a *run.Artefact, procs int) (run.Outcome, bool) {
-	old := runtime.GOMAXPROCS(procs)
-	defer runtime.GOMAXPROCS(old)
-	done := make(chan run.Outcome, 1)
-	go func() { done <- a.RunOnce(run.Input{}, nil) }()
-	select {
-	case o := <-done:
-		return o, true
-	case <-time.After(20 * time.Second):
-		return run.Outcome{}, false
-	}
-}
+// hangLimit: how long a program that is predicted never to end is given.
+const hangLimit = 700 * time.Millisecond
 
 func traceText(model string) (string, string) {
 	// "ok 1,2,3 done" → "1\n2\n3\n", "done"
@@ -150,17 +141,25 @@ func traceText(model string) (string, string) {
 
 func runC14(c *hx.Ctx) error {
 	res := c.Res
-	res.Rule = "generated concurrent programs: main composed of 1-3 shapes (pipeline with 0-2 stages, fan-in whose parent changes the passed variables after each go, WaitGroup-like counting over a channel with one shared cell per worker, several producers plus a closer goroutine and range, select over two feeders with choice-independent sum; native functions started with go / called right after / deferred), and programs whose go statements pass int, float64, string and []int arguments in every mixture from frames with 0-3 live locals of each register class, several go statements per frame, in nested calls, the caller changing the passed locals afterwards (gc is their only oracle), and programs of 1-3 closed-channel parts that use what a receive gives after close (select loops over 2-5 channels of the classes int/string/float64/[]int, several per class, fed by goroutines or prefilled, in the forms `v, ok :=`, `v :=`, `x, ok =`, `x =`, received 1-3 more times after close, with nil-channel and never-ready cases and default; scripted send/close/select sequences with one ready case whose every outcome is printed; plain receives in all statement forms; range over closed channels; send/close panics under recover with their messages; gc is their only oracle); channels unbuffered or buffered 1-3, Gosched calls at random places; each run by Scriggo under GOMAXPROCS 1/2/4/8 several times and compared with gc's output of the same source and with the Lean source-level and VM-level evaluators under random schedules. Non-trivial: every program (each starts at least one goroutine); distinct by source"
+	res.Rule = "generated concurrent programs: main composed of 1-3 shapes (pipeline with 0-2 stages, fan-in whose parent changes the passed variables after each go, WaitGroup-like counting over a channel with one shared cell per worker, several producers plus a closer goroutine and range, select over two feeders with choice-independent sum; native functions started with go / called right after / deferred), and programs whose go statements pass int, float64, string and []int arguments in every mixture from frames with 0-3 live locals of each register class, several go statements per frame, in nested calls, the caller changing the passed locals afterwards (gc is their only oracle), and programs of 1-3 closed-channel parts that use what a receive gives after close (select loops over 2-5 channels of the classes int/string/float64/[]int, several per class, fed by goroutines or prefilled, in the forms `v, ok :=`, `v :=`, `x, ok =`, `x =`, received 1-3 more times after close, with nil-channel and never-ready cases and default; scripted send/close/select sequences with one ready case whose every outcome is printed; plain receives in all statement forms; range over closed channels; send/close panics under recover with their messages; gc is their only oracle); channels unbuffered or buffered 1-3, Gosched calls at random places;, and programs of 1-3 goroutines each running a generated sequence of channel operations (send, receive in three forms, receive-ok, range until closed with nested bodies, select of 1-4 receive/send cases with or without default, close, len/cap, setting to nil) over local, goroutine-fed and nil channels, accepted by a simulator of Go's semantics (nothing blocks for ever, at most one select case is or becomes ready) with the Lean model of the same operations as second oracle (Go's reading, and the VM's reading under a Done channel with the buffer policy read off run.go), and matrices of statement forms (range over channels of 13 element kinds x `:=`/`=`/no variable x 1-3 live locals of the class x 0-3 int locals; one select whose clauses declare names from a pool of two; break in select clauses: unlabelled, labelled, conditional, in for-select, next to nested for/switch breaks) whose points hit by a recorded defect are predicted from the program alone; each run by Scriggo under GOMAXPROCS 1/2/4/8 and under the four context modes {none, Background, WithCancel never cancelled, WithDeadline far ahead} — a context that is not cancelled must not change the run — and compared with gc's output of the same source and with the Lean evaluators. Non-trivial: every program; distinct by source"
 	if c.Replay != "" {
 		return replayC14(c)
 	}
 	n := c.N(480, 4000)
 	var progs []*program
 	for i := 0; i < n; i++ {
-		switch {
-		case i%4 == 3:
+		switch i % 10 {
+		case 9:
+			if i < 1500 { // a matrix, not a space: a few hundred points cover it
+				progs = append(progs, genForms(c.R))
+			} else {
+				progs = append(progs, genProgram(c.R))
+			}
+		case 0, 5:
+			progs = append(progs, genSeq(c.R))
+		case 3, 7:
 			progs = append(progs, genClosed(c.R))
-		case i%3 == 2:
+		case 2, 8:
 			progs = append(progs, genMixed(c.R))
 		default:
 			progs = append(progs, genProgram(c.R))
@@ -174,26 +173,63 @@ func runC14(c *hx.Ctx) error {
 	if err != nil {
 		return err
 	}
+	// a known defect is ACTIVE in this run if it is listed as open and its recorded minimal program
+	// still fails: only then may a generated program be attributed to it
+	activeKnown := map[string]bool{}
 	for j, k := range knownC14 {
 		i := n + j
 		src := progs[i].source("", "main", true)
 		bad := ""
-		if a, err := run.Build(run.Case{Kind: "program", Files: map[string]string{"main.go": src}, AllowGo: true}); err != nil {
+		mode := k.mode
+		if mode == "" {
+			mode = "background"
+		}
+		if a, err := buildProgram(src); err != nil {
 			bad = "build error: " + err.Error()
-		} else if o, ok := scriggoRun(a, 2); !ok || o.Printed != want[i] || o.Err != "" || o.Panic != "" {
+		} else if k.hang {
+			mode = "cancel"
+			if o, ok := a.runModeT(2, mode, hangLimit); !ok {
+				bad = "did not finish"
+			} else if o.bad(want[i]) {
+				bad = o.String()
+			}
+		} else if o, ok := a.runMode(2, mode); !ok || o.bad(want[i]) {
 			bad = o.String()
 		}
 		if bad != "" {
+			activeKnown[c.Known(k.id)] = true
 			res.AddBreak(proto.Break{Kind: "property", Name: "output-differs-from-gc", Finding: c.Known(k.id),
-				Case: c14Case{Source: src, Want: want[i], Procs: 2}.line(), Human: src, Impl: bad, Model: fmt.Sprintf("gc prints %q", want[i])})
+				Case: c14Case{Source: src, Want: want[i], Procs: 2, Mode: mode}.line(), Human: src, Impl: bad, Model: fmt.Sprintf("gc prints %q", want[i])})
 		}
 	}
+	delete(activeKnown, "")
 	progs, want = progs[:n], want[:n]
+	for i, p := range progs {
+		p.resolve(want[i])
+	}
 
 	// the Lean evaluators: source level and VM level (main at a non-zero frame pointer), one (quick) or two (thorough) random schedules each
 	var lines []string
 	var owner []int
+	var expect []string // what the Lean evaluator must print: gc's output, or the goroutine's line of it
 	for i, p := range progs {
+		if p.seq != nil {
+			// one goroutine at a time: Go's reading and the VM's reading under a Done channel
+			for k, g := range p.seq.gs {
+				mine := ""
+				for _, l := range strings.Split(want[i], "\n") {
+					if t, ok := strings.CutPrefix(l, fmt.Sprintf("g%d ", k)); ok && t != "" {
+						mine = strings.ReplaceAll(strings.TrimSuffix(t, ","), ",", "\n") + "\n"
+					}
+				}
+				for _, mode := range []string{"go", "vm"} {
+					lines = append(lines, g.protoLine(mode))
+					owner = append(owner, i)
+					expect = append(expect, mine)
+				}
+			}
+			continue
+		}
 		if !p.modelled {
 			continue
 		}
@@ -201,6 +237,7 @@ func runC14(c *hx.Ctx) error {
 			for s := 0; s < c.N(1, 2); s++ {
 				lines = append(lines, p.protoLine(lv, 3+i%5, 400000, c.R.U64()))
 				owner = append(owner, i)
+				expect = append(expect, want[i])
 			}
 		}
 	}
@@ -209,12 +246,19 @@ func runC14(c *hx.Ctx) error {
 		if err != nil {
 			return err
 		}
+		leanBreaks := map[string]int{}
 		for j, a := range ans {
 			p := progs[owner[j]]
 			txt, status := traceText(a)
-			if status != "done" || txt != want[owner[j]] {
-				res.AddBreak(proto.Break{Kind: "correspondence", Name: "lean-evaluator-vs-gc", Case: lines[j],
-					Human: p.source("", "main", true), Impl: fmt.Sprintf("gc prints %q", want[owner[j]]), Model: a})
+			if status != "done" || txt != expect[j] {
+				name := "lean-evaluator-vs-gc"
+				if strings.HasPrefix(lines[j], "C14 seq vm ") {
+					name = "lean-vm-reading-with-the-code's-buffer-policy-vs-gc"
+				}
+				if leanBreaks[name]++; leanBreaks[name] <= 3 {
+					res.AddBreak(proto.Break{Kind: "correspondence", Name: name, Case: lines[j],
+						Human: p.source("", "main", true), Impl: fmt.Sprintf("gc prints %q", want[owner[j]]), Model: a})
+				}
 			}
 			if j%197 == 0 {
 				res.Sample(map[string]string{"line": lines[j], "model": a, "gc": want[owner[j]]})
@@ -223,21 +267,62 @@ func runC14(c *hx.Ctx) error {
 		res.Histogram["lean-evaluations"] = len(lines)
 	}
 
-	// Scriggo
+	// Scriggo: every program under every context mode (a context that is not cancelled must not
+	// change the run) and GOMAXPROCS 1/2/4/8
 	var raceSample []run.Case
 	failures := 0
 	for i, p := range progs {
 		src := p.source("", "main", true)
 		cs := run.Case{Kind: "program", Files: map[string]string{"main.go": src}, AllowGo: true}
-		a, err := run.Build(cs)
-		if err != nil {
-			return fmt.Errorf("generated program does not build: %v\n%s", err, src)
-		}
+		a, err := buildProgram(src)
 		res.Count(src, true)
 		for _, s := range p.shapes {
 			res.Hist("shape:" + s)
 		}
-		res.Hist(fmt.Sprintf("goroutine-functions:%02d", len(p.funcs)-1))
+		stoppable := len(p.shapes) > 0 && p.shapes[0] == "forms:select-break"
+		pr := p.predict
+		if pr != nil && !activeKnown[pr.id] {
+			pr = nil // the recorded defect is gone (or not listed): nothing is attributed to it
+		}
+		if pr != nil {
+			res.Hist("class/" + pr.id + "/predicted")
+		}
+		attribute := func(how string, mode string, procs int) {
+			res.Hist("class/" + pr.id + "/fail-as-predicted")
+			res.AddBreak(proto.Break{Kind: "property", Name: "output-differs-from-gc", Finding: pr.id,
+				Case: c14Case{Source: src, Want: want[i], Procs: procs, Mode: mode}.line(), Human: src, Impl: how, Model: fmt.Sprintf("gc prints %q", want[i])})
+		}
+		if err != nil {
+			if pr != nil && pr.effect == "build" && strings.Contains(err.Error(), pr.output) {
+				attribute("build error: "+err.Error(), "", 0)
+				continue
+			}
+			if !strings.HasPrefix(p.shapes[0], "forms:") {
+				return fmt.Errorf("generated program does not build: %v\n%s", err, src)
+			}
+			failures++
+			res.AddBreak(proto.Break{Kind: "property", Name: "valid-program-rejected", Case: c14Case{Source: src, Want: want[i]}.line(),
+				Human: src, Impl: "build error: " + err.Error(), Model: fmt.Sprintf("gc builds it and prints %q", want[i])})
+			continue
+		}
+		if pr != nil && pr.effect == "hang" {
+			// predicted never to end: one short run under a context that can stop it
+			if o, ok := a.runModeT(2, "cancel", hangLimit); !ok {
+				attribute("did not finish", "cancel", 2)
+			} else if o.bad(want[i]) {
+				failures++
+				res.AddBreak(proto.Break{Kind: "property", Name: "output-differs-from-gc", Case: c14Case{Source: src, Want: want[i], Procs: 2, Mode: "cancel"}.line(),
+					Human: src, Impl: o.String(), Model: fmt.Sprintf("gc prints %q", want[i])})
+			}
+			continue
+		}
+		if p.seq == nil {
+			if p.raw == "" {
+				res.Hist(fmt.Sprintf("goroutine-functions:%02d", len(p.funcs)-1))
+			}
+		} else {
+			res.Hist(fmt.Sprintf("opseq-goroutines:%d", len(p.seq.gs)))
+		}
 		if i%41 == 0 {
 			res.Sample(map[string]string{"source": src, "gc": want[i]})
 		}
@@ -249,8 +334,20 @@ func runC14(c *hx.Ctx) error {
 		}
 		for rep := 0; rep < c.N(4, 8); rep++ {
 			procs := []int{1, 2, 4, 8}[(rep+i)%4]
-			o, ok := scriggoRun(a, procs)
+			mode := ctxModes[(rep+i/4)%4]
+			if p.doneOff && ctxDone(mode) {
+				mode = ctxModes[rep%2]
+				res.Hist("ctx-mode-with-done-skipped")
+			}
+			limit := 20 * time.Second
+			if stoppable {
+				// a break in a select clause: if it goes wrong the run never ends and spins —
+				// only under contexts that can stop it, and not for long
+				mode, limit = ctxModes[2+rep%2], 5*time.Second
+			}
+			o, ok := a.runModeT(procs, mode, limit)
 			res.Hist(fmt.Sprintf("procs%d", procs))
+			res.Hist("ctx:" + mode)
 			bad := ""
 			switch {
 			case !ok:
@@ -260,38 +357,86 @@ func runC14(c *hx.Ctx) error {
 			case o.Printed != want[i]:
 				bad = fmt.Sprintf("printed %q", o.Printed)
 			}
-			if bad != "" {
-				failures++
-				// shrink: a single shape of the program that still fails
-				if len(p.segs) > 1 || len(p.alts) > 1 {
-					cands := p.alts
-					for k := range p.segs {
-						cands = append(cands, p.only(k))
+			if bad == "" {
+				continue
+			}
+			if pr != nil && pr.effect == "output" && ok && o.Err == "" && o.Panic == "" && o.Printed == pr.output {
+				attribute(bad, mode, procs)
+				break
+			}
+			failures++
+			failsAs := func(b *built, w string) (string, bool) {
+				for t := 0; t < 6; t++ {
+					if qo, ok := b.runMode(procs, mode); !ok || qo.bad(w) {
+						return qo.String(), true
 					}
-					if cw, err := gcBatch(cands); err == nil {
-						for k, q := range cands {
-							qs := q.source("", "main", true)
-							qa, err := run.Build(run.Case{Kind: "program", Files: map[string]string{"main.go": qs}, AllowGo: true})
-							if err != nil {
-								continue
-							}
-							found := false
-							for t := 0; t < 8 && !found; t++ {
-								if qo, ok := scriggoRun(qa, procs); !ok || qo.Printed != cw[k] || qo.Err != "" || qo.Panic != "" {
-									src, bad, found = qs, fmt.Sprintf("printed %q err=%q panic=%q", qo.Printed, qo.Err, qo.Panic), true
-									want[i] = cw[k]
-								}
-							}
-							if found {
-								break
+				}
+				return "", false
+			}
+			switch {
+			case p.seq != nil:
+				// shrink by operations; the simulator says what to expect, gc confirms at the end
+				small := shrinkSeq(p.seq, func(q *seqProg) bool {
+					qa, err := buildProgram(q.program().source("", "main", true))
+					if err != nil {
+						return false
+					}
+					// a step is taken only if the smaller program fails and no known defect explains
+					// that (the original is explained by none)
+					if qp := q.predictSharedSend(); qp != nil && activeKnown[qp.id] {
+						return false
+					}
+					_, f := failsAs(qa, q.expected())
+					return f
+				})
+				if small != p.seq {
+					q := small.program()
+					if cw, err := gcBatch([]*program{q}); err == nil && cw[0] == small.expected() {
+						if qa, err := buildProgram(q.source("", "main", true)); err == nil {
+							if how, f := failsAs(qa, cw[0]); f {
+								src, bad, want[i] = q.source("", "main", true), how, cw[0]
 							}
 						}
 					}
 				}
-				res.AddBreak(proto.Break{Kind: "property", Name: "output-differs-from-gc", Case: c14Case{Source: src, Want: want[i], Procs: procs}.line(),
-					Human: src, Impl: bad, Model: fmt.Sprintf("gc prints %q", want[i])})
-				break
+			case len(p.segs) > 1 || len(p.alts) > 1:
+				// shrink: a single shape of the program that still fails
+				cands := p.alts
+				for k := range p.segs {
+					cands = append(cands, p.only(k))
+				}
+				if cw, err := gcBatch(cands); err == nil {
+					for k, q := range cands {
+						qs := q.source("", "main", true)
+						qa, err := buildProgram(qs)
+						if err != nil {
+							continue
+						}
+						if how, f := failsAs(qa, cw[k]); f {
+							src, bad, want[i] = qs, how, cw[k]
+							break
+						}
+					}
+				}
 			}
+			// does the program fail without a Done channel as well?
+			name := "output-differs-from-gc"
+			if ctxDone(mode) {
+				if sa, err := buildProgram(src); err == nil {
+					plainFails := false
+					for t := 0; t < 6 && !plainFails; t++ {
+						qo, ok := sa.runMode(procs, ctxModes[t%2])
+						plainFails = !ok || qo.bad(want[i])
+					}
+					if !plainFails {
+						name = "context-changes-uncancelled-run"
+						bad += " under a context with a Done channel (" + mode + "); gc's output without one"
+					}
+				}
+			}
+			res.AddBreak(proto.Break{Kind: "property", Name: name, Case: c14Case{Source: src, Want: want[i], Procs: procs, Mode: mode}.line(),
+				Human: src, Impl: bad, Model: fmt.Sprintf("gc prints %q", want[i])})
+			break
 		}
 		if failures >= 3 {
 			res.Notes = append(res.Notes, "stopped after 3 failing programs")
@@ -365,14 +510,17 @@ func replayC14(c *hx.Ctx) error {
 	if err := json.Unmarshal([]byte(js), &cs); err != nil {
 		return err
 	}
-	a, err := run.Build(run.Case{Kind: "program", Files: map[string]string{"main.go": cs.Source}, AllowGo: true})
+	a, err := buildProgram(cs.Source)
 	if err != nil {
 		return err
 	}
+	if cs.Mode == "" {
+		cs.Mode = "background"
+	}
 	for i := 0; i < 20; i++ {
-		o, ok := scriggoRun(a, cs.Procs)
+		o, ok := a.runMode(cs.Procs, cs.Mode)
 		c.Res.Count(cs.Source, true)
-		if !ok || o.Printed != cs.Want || o.Err != "" || o.Panic != "" {
+		if !ok || o.bad(cs.Want) {
 			c.Res.AddBreak(proto.Break{Kind: "property", Name: "output-differs-from-gc", Case: cs.line(), Human: cs.Source, Impl: o.String(), Model: fmt.Sprintf("gc prints %q", cs.Want)})
 			break
 		}
